@@ -33,11 +33,67 @@ def succs(fn, b, unwind=False):
     return out
 
 
+def _thread_targets(fn, b):
+    """jump threading for short-circuit booleans: if block b assigns a constant to a bool local
+    and falls (through a chain of gotos over blocks that only assign constants / copies) into a
+    switch on that local, the only feasible successor is the matching switch target.
+    Returns the threaded successor list or None."""
+    known = {}
+    cur = b
+    hops = 0
+    first = True
+    while hops < 6:
+        blk = fn.blocks[cur]
+        for st in blk[0]:
+            pl, rv = st[1], st[2]
+            if pl[1]:
+                if not first:
+                    return None
+                continue
+            if rv[0] == "use" and rv[1][0] == "k" and isinstance(rv[1][2], bool):
+                known[pl[0]] = rv[1][2]
+            elif rv[0] == "use" and rv[1][0] in ("c", "m") and not rv[1][1][1] and rv[1][1][0] in known:
+                known[pl[0]] = known[rv[1][1][0]]
+            elif rv[0] == "un" and rv[1] == "Not" and rv[2][0] in ("c", "m") and not rv[2][1][1] and rv[2][1][0] in known:
+                known[pl[0]] = not known[rv[2][1][0]]
+            else:
+                if not first:
+                    # a non-trivial statement in a pass-through block: stop threading
+                    if pl[0] in known:
+                        del known[pl[0]]
+                    if rv[0] not in ("use", "ref", "cast", "discr", "agg", "bin", "un"):
+                        return None
+                else:
+                    known.pop(pl[0], None)
+        t = blk[1]
+        if t[0] == "goto" and (first or True):
+            cur = t[1]
+            first = False
+            hops += 1
+            continue
+        if t[0] == "sw" and not first:
+            op = t[1]
+            if op[0] in ("c", "m") and not op[1][1] and op[1][0] in known:
+                k = 1 if known[op[1][0]] else 0
+                for v, tgt in t[2]:
+                    if v == k:
+                        return [tgt]
+                return [t[3]]
+        return None
+    return None
+
+
 class Cfg:
-    def __init__(self, fn, unwind=False):
+    def __init__(self, fn, unwind=False, thread=False):
         self.fn = fn
         self.n = len(fn.blocks)
         self.succ = [[s for s, _ in succs(fn, b, unwind)] for b in range(self.n)]
+        if thread:
+            for b in range(self.n):
+                if fn.term(b)[0] == "goto":
+                    tt = _thread_targets(fn, b)
+                    if tt is not None:
+                        self.succ[b] = tt
         self.pred = [[] for _ in range(self.n)]
         for b, ss in enumerate(self.succ):
             for s in ss:
@@ -190,13 +246,13 @@ class Cfg:
         return [b for b in self.live() if self.fn.term(b)[0] == "ret"]
 
 
-def cfg(fn, unwind=False):
-    key = "u" if unwind else "n"
+def cfg(fn, unwind=False, thread=False):
+    key = ("u" if unwind else "n") + ("t" if thread else "")
     if fn._cfg is None:
         fn._cfg = {}
     c = fn._cfg.get(key)
     if c is None:
-        c = Cfg(fn, unwind)
+        c = Cfg(fn, unwind, thread)
         fn._cfg[key] = c
     return c
 
@@ -204,7 +260,7 @@ def cfg(fn, unwind=False):
 def must_pass(fn, targets, guards, guard_edges=(), start=0, unwind=False):
     """P2. Every path start -> any block of `targets` passes a block of `guards` (or an edge of
     guard_edges).  Returns None when the obligation holds, else a witness block path."""
-    g = cfg(fn, unwind)
+    g = cfg(fn, unwind, thread=True)
     tset = set(targets) - set(guards)
     if not tset:
         return None
